@@ -33,13 +33,32 @@ RECURSIVE NBatch(_)
 NBatch(a) == IF a.op \in {"list", "dict"} THEN 0
              ELSE NBatch(a.in) + (IF a.op = "batch" THEN 1 ELSE 0)
 
-\* hits of every wrapper, top first: [lo, hi] = fetches that must / may happen
+\* the program whose OUTPUT each request of Requests(a, rq) refers to, top first
+RECURSIVE Nodes(_)
+Nodes(a) ==
+  IF a.op \in {"list", "dict"} THEN <<a>>
+  ELSE IF a.op = "copy" THEN Nodes(a.in)
+  ELSE <<a>> \o Nodes(a.in)
+
+\* hits of every wrapper, top first.  A fetch of an example whose evaluation
+\* raises is a FAILED fetch of every wrapper at or above the raising stage
+\* (counted in `total` and in `failed`); lo / hi bound the successful ones.
 \* (new() builds the source as TWO stages: the storage and a MapDataset that
 \*  deserialises; both are wrapped and see the same fetches)
 HitBounds(a, rq) ==
   LET rs0 == Requests(a, rq)
+      ns0 == Nodes(a)
       rs == rs0 \o <<rs0[Len(rs0)]>>
-  IN [j \in 1..Len(rs) |-> [lo |-> Len(rs[j].pos), hi |-> Len(rs[j].pos) + Len(rs[j].may)]]
+      ns == ns0 \o <<ns0[Len(ns0)]>>
+      OkAt(nd, ps) == Len(SelectIdx(ps, LAMBDA q : Els(nd)[q].ok, 1))
+  IN [j \in 1..Len(rs) |->
+        [lo |-> OkAt(ns[j], rs[j].pos),
+         hi |-> OkAt(ns[j], rs[j].pos) + OkAt(ns[j], rs[j].may),
+         flo |-> Len(rs[j].pos) - OkAt(ns[j], rs[j].pos),
+         fhi |-> Len(rs[j].pos) - OkAt(ns[j], rs[j].pos) + Len(rs[j].may) - OkAt(ns[j], rs[j].may)]]
+
+RECURSIVE HasOp(_, _)
+HasOp(a, op) == IF a.op \in {"list", "dict"} THEN FALSE ELSE a.op = op \/ HasOp(a.in, op)
 
 EqIt(x, y) == x.items = y.items /\ x.exc = y.exc
 
@@ -48,8 +67,15 @@ EqIt(x, y) == x.items = y.items /\ x.exc = y.exc
 V_C20(a, rec) ==
   LET n == Len(Vals(a))
       InBounds(h, b) == /\ Len(h) = Len(b)
-                        /\ \A j \in 1..Len(h) : b[j].lo <= h[j].total - h[j].failed
+                        /\ \A j \in 1..Len(h) : /\ b[j].lo <= h[j].total - h[j].failed
                                                  /\ h[j].total - h[j].failed <= b[j].hi
+                                                 \* (index-mode batches also PROBE past the
+                                                 \*  end: extra failed fetches are legitimate)
+                                                 /\ b[j].flo <= h[j].failed
+      fe == FirstErr(Els(a))
+      avail == IF fe = 0 THEN n ELSE fe - 1
+      IterReq(k) == IF k <= avail THEN Req(Range(1, k), <<>>)
+                    ELSE IF fe = 0 THEN ReqAll(n) ELSE Req(Range(1, fe), <<>>)
   IN
   IF rec.plain.build # "ok" THEN <<"trivial", "plain-pipeline-refused">>
   ELSE IF rec.prof.build # "ok" THEN <<"viol", "wrapping-refused">>
@@ -58,13 +84,15 @@ V_C20(a, rec) ==
   ELSE IF rec.prof.len # rec.plain.len THEN <<"viol", "len-differs-under-the-wrapper">>
   ELSE IF rec.prof.gi # rec.plain.gi THEN <<"viol", "indexing-differs-under-the-wrapper">>
   ELSE IF ~rec.untouched THEN <<"viol", "wrapped-pipeline-object-was-modified">>
-  ELSE IF rec.plain.it1.exc # "none" THEN <<"trivial", "pipeline-raises">>
   ELSE IF NBatch(a) >= 2 THEN <<"trivial", "nested-batches-transparency-only">>
-  ELSE IF ~InBounds(rec.full, HitBounds(a, ReqAll(n)))
+  \* (the order of a seeded reshuffle is not modelled: transparency only -
+  \*  the plain twin and the wrapped twin are seeded alike, two epochs each)
+  ELSE IF HasOp(a, "rshuffle") THEN <<"ok", "">>
+  ELSE IF ~InBounds(rec.full, HitBounds(a, IterReq(n + 1)))
        THEN <<"viol", "hit-counts-of-a-full-iteration-differ-from-the-fetches">>
   ELSE IF \E j \in 1..Len(rec.takes) :
             LET k == rec.takes[j].k IN
-            k <= n /\ ~InBounds(rec.takes[j].hits, HitBounds(a, Req(Range(1, k), <<>>)))
+            k <= n /\ ~InBounds(rec.takes[j].hits, HitBounds(a, IterReq(k)))
        THEN <<"viol", "hit-counts-of-a-partial-iteration-differ-from-the-fetches">>
   ELSE IF \E j \in 1..Len(rec.gets) :
             /\ Indexable(a) /\ rec.gets[j].i < n
